@@ -3,8 +3,8 @@
 # Confirms: patch == worktree diff, builds, demo fails with the change and passes against /repo's unchanged build, suite result.
 o="$1"; wt="$2"
 cd "$wt" || exit 2
-git diff > /tmp/wt/out/_cur.diff
-if ! diff -q /tmp/wt/out/_cur.diff "$o/patch.diff" >/dev/null; then echo "NOTE: patch.diff differs from worktree diff (using worktree diff)"; cp /tmp/wt/out/_cur.diff "$o/patch.diff"; fi
+git diff > /tmp/wt/out/_cur.$$.diff
+if ! diff -q /tmp/wt/out/_cur.$$.diff "$o/patch.diff" >/dev/null; then echo "NOTE: patch.diff differs from worktree diff (using worktree diff)"; cp /tmp/wt/out/_cur.$$.diff "$o/patch.diff"; fi
 make -j4 >/dev/null 2>&1 && make -j4 xcmtest >/dev/null 2>&1 || { echo "BUILD FAILED"; exit 1; }
 demo="$o/demo.c"
 if [ -f "$demo" ]; then
